@@ -51,7 +51,9 @@ def rich_structs():
             F(7, "default", T("binary"), "g"), F(20, "optional", T("E"), "en")]},
         {"k": "union", "name": "U", "fields": [
             F(1, "default", T("i32"), "a"), F(2, "default", T("string"), "b"), F(3, "default", T("In"), "c"),
-            F(4, "default", T("list", T("i32")), "d")]},
+            F(4, "default", T("list", T("i32")), "d"), F(5, "default", T("binary"), "e")]},
+        {"k": "union", "name": "UD", "fields": [
+            F(1, "default", T("i32"), "a", {"i": 5}), F(2, "default", T("string"), "b"), F(3, "default", T("bool"), "c")]},
         {"k": "exception", "name": "X", "fields": [F(1, "default", T("string"), "msg"), F(2, "required", T("i32"), "code")]},
         {"k": "struct", "name": "Rec", "fields": [F(1, "default", T("i32"), "v"), F(2, "optional", T("Rec"), "next")]},
         {"k": "struct", "name": "Outer", "fields": [
@@ -157,7 +159,10 @@ def fast_extras():
             fs.append(fl)
         return fs
     return [
+        {"k": "struct", "name": "Req8", "fields": reqs(8)},
         {"k": "struct", "name": "Req9", "fields": reqs(9)},
+        {"k": "struct", "name": "Req16", "fields": reqs(16)},
+        {"k": "struct", "name": "Req24", "fields": reqs(24)},
         {"k": "struct", "name": "Req17", "fields": reqs(17)},
         {"k": "struct", "name": "KeyS", "fields": [F(1, "default", T("map", T("In"), T("string")), "m")]},
         {"k": "struct", "name": "Deep4", "fields": [
